@@ -8,7 +8,9 @@ cp -r /repo/include /repo/src "$d/"
 ( cd "$d" && patch -p1 -s < "$patch" )
 cd /verif
 set +e
-VERIF_REPO="$d" ./check "$id" "$tier" > "$d/out.txt" 2>&1
+# evidence and replays of a run against a modified tree must not overwrite the committed ones
+mkdir -p "$d/evidence" /root/scratch/seed_replays
+VERIF_EVIDENCE_DIR="$d/evidence" VERIF_REPLAYS_DIR=/root/scratch/seed_replays VERIF_REPO="$d" ./check "$id" "$tier" > "$d/out.txt" 2>&1
 rc=$?
 grep -c '^VIOLATION' "$d/out.txt" | sed 's/^/violations: /'
 grep '^VIOLATION' "$d/out.txt" | head -3
